@@ -54,6 +54,7 @@ def run_fd_model(ctx, name, frames, cuts, params, invariants, workers=12, timeou
         "BlockBudgets": tla_set(params.get("BlockBudgets", [])), "Offers": tla_set(params.get("Offers", [])),
         "Targets": tla_set(params.get("Targets", [])), "SReadSizes": tla_set(params.get("SReadSizes", [])),
         "MaxSteps": params.get("MaxSteps", 5), "MaxBlock": 131072, "Dev_F9": tla_bool(dev_f9),
+        "ResetMode": '"%s"' % params.get("ResetMode", "any"),
     }
     write_cfg(cfg, constants=consts, invariants=invariants, constraint="Bounded")
     dot = ctx.path(name + ".dot")
